@@ -41,4 +41,15 @@ CONTRACTS = [
     c("overlap", "ok", params={"a": Ty.Int, "b": Ty.Int}, returns=Ty.Int, ensures=["(result == 1) == (bitand(a, b) != 0)"],
       externals={"bitand": lambda e, st, a, n, k: Ty.V(Ty.Int, [e.specfns["bitand"][0](e.num(a[0]), e.num(a[1]))])}),
     c("overlap", "fail", variant="wrong", params={"a": Ty.Int, "b": Ty.Int}, requires=["a == 1 and b == 2"], returns=Ty.Int, ensures=["result == 0"]),
+    # a local first assigned inside a loop: reading it needs a proof that the assignment happened
+    c("last_big", "fail", params={"xs": Ty.List(Ty.Int)}, requires=["len(xs) >= 1"], returns=Ty.Int, hints={"hit": Ty.Int}, nloops=1,
+      loops={0: Loop(pos="t", inv=["True"])}, ensures=["True"]),
+    c("last_seen", "ok", params={"xs": Ty.List(Ty.Int)}, requires=["len(xs) >= 1"], returns=Ty.Int, hints={"cur": Ty.Int}, nloops=1,
+      loops={0: Loop(pos="t", inv=["implies(t >= 1, isbound('cur') and cur == xs[t - 1])"])}, ensures=["result == xs[len(xs) - 1]"]),
+    c("last_seen", "fail", variant="wrong", params={"xs": Ty.List(Ty.Int)}, returns=Ty.Int, hints={"cur": Ty.Int}, nloops=1,
+      loops={0: Loop(pos="t", inv=["implies(t >= 1, isbound('cur') and cur == xs[t - 1])"])}, ensures=["True"]),
+    # identity with False on a bool, truth value of an Optional list
+    c("pick", "ok", params={"flag": Ty.Bool, "perm": Ty.Opt(Ty.List(Ty.Int))}, returns=Ty.Int,
+      ensures=["(result == 1) == flag", "(result == 2) == (not flag and perm is not None and len(unopt(perm)) > 0)"]),
+    c("pick", "fail", variant="wrong", params={"flag": Ty.Bool, "perm": Ty.Opt(Ty.List(Ty.Int))}, returns=Ty.Int, ensures=["implies(perm is not None, result != 3)"]),
 ]
